@@ -174,9 +174,9 @@ def client_field_levels(ctx, cls, in_study_class) -> dict[str, int]:
     return fields
 
 
-def check_client_function(ctx, rule, f, pol, counters):
+def check_client_function(ctx, rule, f, pol, counters, init=None):
     g = CFG(f.node, name=f.qualname)
-    pre = A.analyse(g, pol)
+    pre = A.analyse(g, pol, init)
     for m in A.mutations(g, pre, pol):
         counters["mutations"] += 1
         if m.level == SHARED:
@@ -390,6 +390,30 @@ def run(ctx):
                 ctx.check(lvl == CLEAN, "R20.2", f.short, "honours-deepcopy=True",
                           message=f"Study.{name}(deepcopy=True) can return shared trial objects: `{norm(n.ast.value)[:70]}`",
                           how="CLEAN when specialised for deepcopy=True", where=where(f, n.ast))
+    # ... and so does every Study wrapper elsewhere in the package that overrides the trial getters (the per-bracket study view that
+    # HyperbandPruner hands to samplers and pruners): a wrapper that drops the flag hands out the storage's own trial objects as "copies"
+    class _WrapPolicy(ClientPolicy):
+        def _recv_is_study(self, recv):
+            return (isinstance(recv, ast.Call) and dotted(recv.func) == "super") or super()._recv_is_study(recv)
+    n_wrap = 0
+    for m_ in p.modules.values() if hasattr(p, "modules") else []:
+        if not m_.name.startswith("optuna.") or m_.name.startswith(("optuna.storages", "optuna.study.study")):
+            continue
+        for fn in ast.walk(m_.tree):
+            if isinstance(fn, ast.FunctionDef) and fn.name in ("get_trials", "_get_trials") and any(a.arg == "deepcopy" for a in fn.args.args + fn.args.kwonlyargs):
+                n_wrap += 1
+                pol = _WrapPolicy(in_study_class=True, consts={"deepcopy": True})
+                g = CFG(fn, name=f"{m_.name}.{fn.name}")
+                pre = A.analyse(g, pol)
+                for n in g.stmt_nodes():
+                    if n.kind == "stmt" and isinstance(n.ast, ast.Return) and n.ast.value is not None and n in pre:
+                        lvl = A.Evaluator(pre[n], pol).level(n.ast.value)
+                        ctx.check(lvl == CLEAN, "R20.2", f"{m_.relpath}::{fn.name}", "wrapper-honours-deepcopy=True",
+                                  message=f"the Study wrapper's {fn.name}(deepcopy=True) in {m_.relpath} can return shared trial objects (`{norm(n.ast.value)[:70]}`): "
+                                          f"samplers and pruners that modify 'their copies' from study.get_trials() / study.trials then change what the real study returns",
+                                  how="the deepcopy flag is passed on to the wrapped getter (CLEAN when specialised for deepcopy=True)",
+                                  where=f"{m_.relpath}:{n.ast.lineno}")
+    ctx.floor("R20.2", "study_wrapper_getters", n_wrap, 1)
     # best_trials is computed from study.trials (deep copies)
     pf = p.func("optuna.study._multi_objective._get_pareto_front_trials")
     srcs = [norm(a) for n in own_nodes(pf.node) if isinstance(n, ast.Call) for a in n.args]
@@ -422,7 +446,13 @@ def run(ctx):
                 field_cache[f.cls.qualname] = client_field_levels(ctx, f.cls, in_study)
             fields = field_cache[f.cls.qualname]
         pol = ClientPolicy(fields, in_study_class=in_study)
-        check_client_function(ctx, "R20.4", f, pol, counters)
+        # a trial object handed to the study layer may be a storage's own object (copy_study and
+        # add_trials(other.get_trials(deepcopy=False)) pass exactly that): it is as shared as a getter result
+        init = None
+        if f.module.name.startswith("optuna.study"):
+            init = {a.arg: SHARED for a in f.node.args.args + f.node.args.kwonlyargs
+                    if a.annotation is not None and "FrozenTrial" in norm(a.annotation) and "Callable" not in norm(a.annotation)}
+        check_client_function(ctx, "R20.4", f, pol, counters, init)
         counters["functions"] += 1
         counters["sources"] += pol.sources_seen
     ctx.floor("R20.4", "functions_analysed", counters["functions"], 450)
